@@ -402,6 +402,9 @@ func Check(r *Run, ex *vs.Exec) []Finding {
 		} else if hasGate {
 			add("C09", "the call did not return after the context was cancelled while a task was still running; blocked: %s", strings.Join(blocked, "; "))
 		} else if hasBarrier {
+			if len(blocked) > 8 {
+				blocked = append(blocked[:8:8], fmt.Sprintf("... %d threads in all", len(blocked)))
+			}
 			add("C03", "capacity lost: %d jobs that must run simultaneously (limit %d) never all ran; blocked: %s", countOut(s, Barrier), N, strings.Join(blocked, "; "))
 		} else {
 			add("C05", "deadlock: caller never returned; blocked: %s", strings.Join(blocked, "; "))
